@@ -22,6 +22,7 @@ mod c05;
 mod c04;
 mod c06;
 mod c10;
+mod c03;
 mod common;
 mod dict;
 mod world;
@@ -71,6 +72,7 @@ fn main() {
         "C04" => c04::run(&mut run),
         "C06" => c06::run(&mut run),
         "C10" => c10::run(&mut run),
+        "C03" => c03::run(&mut run),
         _ => { eprintln!("unknown property {}", prop); std::process::exit(2); }
     }
     run.finish();
